@@ -51,6 +51,9 @@ type Prop struct {
 	Exec func(op string) Result
 	// Exhaustive reports whether Gen enumerated a finite space completely.
 	Exhaustive func(tier string) bool
+	// Prepare (optional) sees the whole op list before the first Exec, e.g. to compile
+	// all oracle programs in one batch (see gobatch.go).
+	Prepare func(ops []string)
 }
 
 var props = map[string]*Prop{}
@@ -168,6 +171,9 @@ func run(args []string) {
 	rep := report{Property: p.ID, Tier: *tier, Seed: *seed, Rule: p.Rule, Dist: map[string]int{}, Corpus: ncorpus}
 	if p.Exhaustive != nil && *replay == "" {
 		rep.Exhaustive = p.Exhaustive(*tier)
+	}
+	if p.Prepare != nil {
+		p.Prepare(ops)
 	}
 	seen := map[uint64]bool{}
 	sr := rand.New(rand.NewSource(*seed + 7))
